@@ -77,15 +77,22 @@ def writer_rmw_rule(ctx, rid):
         if not i.startswith("nervusdb_storage::") or "::tests::" in i:
             continue
         fl = locks.BodyLocks(b)
-        w = [a for a in fl.acqs if a.cls == "Mutex<()>" and a.mode == "lock" and not a.escapes]
+        w = [a for a in fl.acqs if a.cls == "Mutex<()>" and a.mode == "lock"]
         if not w:
             continue
+
+        def held_at(x, bb):
+            if x.escapes:
+                # the guard is moved into the returned transaction: held from the acquisition to the end of the function
+                return x.start is not None and b.dominates(x.start, bb)
+            return fl.must_hold(x, bb)
+
         k = {}
         for a in fl.acqs:
             if a.cls == "Mutex<()>":
                 continue
             n3 += 1
-            held = any(fl.must_hold(x, a.call.bb) for x in w)
+            held = any(held_at(x, a.call.bb) for x in w)
             lab = "%s.%s" % (a.label[0] if a.label else a.cls, a.mode)
             k[lab] = k.get(lab, -1) + 1
             ctx.instance(rid, "%s: %s at %s under the writer mutex=%s" % (i.split("::")[-1], lab, a.call.loc(), held))
